@@ -184,6 +184,44 @@ def run(ctx):
         ctx.ok('R-EXACT', 'val2idx exact branch', where, 'mask from exact membership (%s)' % (exact[0] if isinstance(exact[0], str) else '=='))
     # R-MASKKEEP: the mask put on by method='exact' (and clean='mask') must survive to the returned index
     from .. import lints
+    # ---- R-RESUNIT: time2t converts to a numpy unit no coarser than the finest non-zero field of the times
+    from .. import lints as _l16
+    ctx.rule('R-RESUNIT', 'time2t: the datetime64 unit chosen for a resolution is not coarser than that resolution (seconds are not truncated to minutes)')
+    t2 = mod.func('PseudoNetCDFFile.time2t')
+    r_ = _l16.resolution_table(t2)
+    w16 = 'src/PseudoNetCDF/%s PseudoNetCDFFile.time2t' % RP
+    if r_[0] == 'ok':
+        ctx.ok('R-RESUNIT', 'resolution table', w16, '%d resolutions map to a unit at least as fine' % r_[1])
+    elif r_[0] == 'wrong':
+        ctx.violation(Finding('R-RESUNIT', RP, 'PseudoNetCDFFile.time2t', r_[1], "times whose finest non-zero field is '%s' are converted to datetime64[%s] (needed: [%s] or finer): they are truncated before the "
+                              'interpolation, so queries and file times a few %ss apart get the same abscissa' % (r_[2], r_[3], r_[4], r_[2])))
+    else:
+        ctx.undec('R-RESUNIT', 'resolution table', w16, r_[1])
+    # ---- R-EDGEPAIR: both out-of-range tests look at the same (edge) array; edges keep the order of the coordinate
+    ctx.rule('R-EDGEPAIR', 'val2idx: the left and right out-of-range tests use the two ends of the same edge array; edges are built without sorting')
+    v2 = mod.func('PseudoNetCDFFile.val2idx')
+    w17 = 'src/PseudoNetCDF/%s PseudoNetCDFFile.val2idx' % RP
+    ends = {}
+    for st in iter_stmts(v2.body):
+        if isinstance(st, ast.Assign) and isinstance(st.targets[0], ast.Name) and st.targets[0].id in ('isleft', 'isright') and isinstance(st.value, ast.Compare):
+            sub = [n for n in ast.walk(st.value) if isinstance(n, ast.Subscript) and isinstance(n.value, ast.Name)]
+            if sub:
+                ends[st.targets[0].id] = (sub[0].value.id, norm(sub[0].slice), st)
+    if len(ends) == 2:
+        if ends['isleft'][0] == ends['isright'][0] and (ends['isleft'][1], ends['isright'][1]) == ('0', '-1'):
+            ctx.ok('R-EDGEPAIR', 'range tests', w17, 'val < %s[0] | val > %s[-1]' % (ends['isleft'][0], ends['isright'][0]))
+        else:
+            ctx.violation(Finding('R-EDGEPAIR', RP, 'PseudoNetCDFFile.val2idx', ends['isright'][2], 'the left limit is %s[%s] but the right limit is %s[%s]: values between the last centre and the last edge '
+                                  'are reported (or rejected) as out of range although they lie inside the domain' % (ends['isleft'][0], ends['isleft'][1], ends['isright'][0], ends['isright'][1])))
+    else:
+        ctx.undec('R-EDGEPAIR', 'range tests', w17, 'isleft/isright not in the recognised form')
+    srt = [c for c in ast.walk(v2) if isinstance(c, ast.Call) and dotted(c.func) in ('np.unique', 'sorted', 'set', 'np.union1d') and c.args
+           and any(isinstance(n, ast.Name) and n.id in ('dimbv', 'dimvals', 'dimevals', 'dimv') for n in ast.walk(c.args[0]))]
+    if srt:
+        ctx.violation(Finding('R-EDGEPAIR', RP, 'PseudoNetCDFFile.val2idx', api.stmt_of(srt[0]), '%s sorts (and merges) the coordinate/edge values: a descending coordinate is silently turned ascending before the '
+                              'direction test, and edges equal only up to round-off are counted twice' % norm(srt[0])[:40]), oid='sorted edges')
+    else:
+        ctx.ok('R-EDGEPAIR', 'edge order', w17, 'no sorting/merging of coordinate or edge values')
     ctx.rule('R-MASKKEEP', "no mask-dropping conversion between the masked fractional index and the returned index")
     masked_at = None
     for st in iter_stmts(fn.body):
